@@ -109,6 +109,9 @@ func genCase(rng *rand.Rand, n int, seed int64, pf Profile) *CaseDesc {
 	nT := 3 + rng.Intn(3)
 	plain = plain[:nT]
 	useIface := chance(rng, pf.PIface*3)
+	// scenario "interfaces upward": returned concrete values are received as interfaces further up, several Loose
+	// candidates at different distances
+	ifaceUp := useIface && chance(rng, 0.4)
 	pool := cloneInts(plain)
 	if useIface {
 		pool = append(pool, 5, 6, 7)
@@ -340,6 +343,9 @@ func genCase(rng *rand.Rand, n int, seed int64, pf Profile) *CaseDesc {
 			fin.Out = append(fin.Out, pick(rng, pool))
 		}
 	}
+	if ifaceUp && !contains(fin.Out, 5) && !contains(fin.Out, 6) && !contains(fin.Out, 7) {
+		fin.Out = append(fin.Out, pick(rng, []int{5, 6, 7}))
+	}
 	fin.Out = uniq(fin.Out)
 	if chance(rng, pf.PRefl) {
 		fin.Refl = true
@@ -357,7 +363,7 @@ func genCase(rng *rand.Rand, n int, seed int64, pf Profile) *CaseDesc {
 	}
 	// returned concrete values may be received as an interface further up when their provider is Loose
 	looseReturns := func(p *ProvDesc) {
-		if !useIface || !chance(rng, 0.6) {
+		if !useIface || !(ifaceUp || chance(rng, 0.6)) {
 			return
 		}
 		for _, o := range p.Out {
@@ -408,7 +414,7 @@ func genCase(rng *rand.Rand, n int, seed int64, pf Profile) *CaseDesc {
 			recv := cloneInts(recv0)
 			if useIface {
 				for q, t := range recv {
-					if t >= 5 && t <= 7 && chance(rng, 0.4) {
+					if t >= 5 && t <= 7 && (chance(rng, 0.4) || (ifaceUp && chance(rng, 0.5))) {
 						recv[q] = ifaceOf(t)
 					}
 				}
@@ -427,7 +433,7 @@ func genCase(rng *rand.Rand, n int, seed int64, pf Profile) *CaseDesc {
 					rets = append(rets, t)
 				}
 			}
-			if useIface && chance(rng, 0.35) {
+			if useIface && (chance(rng, 0.35) || (ifaceUp && chance(rng, 0.5))) {
 				// another concrete type that implements the interfaces: receivers further up that ask for
 				// the interface then have two Loose candidates at different distances
 				t := pick(rng, []int{5, 6, 7})
@@ -456,7 +462,7 @@ func genCase(rng *rand.Rand, n int, seed int64, pf Profile) *CaseDesc {
 	}
 	if useIface {
 		for q, t := range pending {
-			if t >= 5 && t <= 7 && chance(rng, 0.3) {
+			if t >= 5 && t <= 7 && (chance(rng, 0.3) || (ifaceUp && chance(rng, 0.5))) {
 				pending[q] = ifaceOf(t)
 			}
 		}
